@@ -19,6 +19,7 @@ func init() {
 	vrt.Register("C16_arity", Arity)
 	vrt.Register("C16_nil_argument", NilArgument)
 	vrt.Register("C16_nested_calls", NestedCalls)
+	vrt.Register("C16_failed_call", FailedCall)
 }
 
 func itoa(n int) string { return strconv.Itoa(n) }
@@ -288,5 +289,35 @@ func NestedCalls() {
 	got, err := render(defs+in, ctx)
 	vrt.Assert(err == nil, "nested user-function calls render")
 	vrt.Assert(got == want, "each parameter is bound to its own argument value when arguments are calls themselves")
+	vrt.Cover("done")
+}
+
+// a call whose body fails with a fault that the call site tolerates (an unknown
+// identifier under if / ! / == / && / ||) still ends: the caller continues in its
+// own scope, with its own variables, and the callee's parameters and lets are gone
+func FailedCall() {
+	A, B, C, D := vrt.Int(), vrt.Int(), vrt.Int(), vrt.Int()
+	vrt.Assume(A != C)
+	ctx := plush.NewContext()
+	ctx.Set("A", A)
+	ctx.Set("B", B)
+	ctx.Set("C", C)
+	ctx.Set("D", D)
+	bodies := []string{"return nope", "let z = B\n return nope.Name", "if (x == C) { return nope }\n return 1", "let z = B\n return g(x)"}
+	body := bodies[vrt.Choice(len(bodies))]
+	sites := []string{
+		"<%= if (f(C, D)) { %>T<% } else { %>F<% } %>",
+		"<%= if (!f(C, D)) { %>F<% } %>",
+		"<%= if (f(C, D) == 1) { %>T<% } else { %>F<% } %>",
+		"<%= if (true && f(C, D)) { %>T<% } else { %>F<% } %>",
+		"<%= if (false) { %>T<% } else if (f(C, D)) { %>T<% } else { %>F<% } %>",
+	}
+	site := sites[vrt.Choice(len(sites))]
+	in := "<% let x = A %><% let g = fn(y) { return nope } %><% let f = fn(x, y) { " + body + " } %>" + site +
+		"[<%= x %>|<%= if (y) { %>y<% } %>|<%= if (z) { %>z<% } %>]<% let w = 7 %><%= w %>"
+	got, err := render(in, ctx)
+	vrt.Assert(err == nil, "a tolerated fault inside a called function does not fail the render")
+	vrt.Assert(got == "F["+itoa(A)+"||]7", "after the failed call the caller runs in its own scope: x is the caller's, y and z do not exist")
+	vrt.Assert(ctx.Value("w") == interface{}(7), "a top-level let after the failed call reaches the render's context")
 	vrt.Cover("done")
 }
